@@ -298,7 +298,7 @@ func init() {
 			var jobs []run.Job
 			n, per := 16, 4000
 			if tier == "thorough" {
-				n, per = 64, 8000
+				n, per = 64, 25000
 			}
 			for i := 0; i < n; i++ {
 				jobs = append(jobs, run.Job{Family: "valid", Seed: seed*100000 + int64(i), N: per, P: map[string]int{"depth": 5}})
